@@ -3,7 +3,7 @@
 From Coq Require Import ZArith List Bool.
 Import ListNotations.
 Require Import Verif.lib.PyLite Verif.gen.BananaGen Verif.lib.Token Verif.lib.TokenProofs Verif.lib.Recv Verif.lib.RecvProofs
-               Verif.lib.BananaRecv Verif.lib.BananaRecvProofs.
+               Verif.lib.BananaRecv Verif.lib.BananaRecvProofs Verif.lib.BananaRecvCount.
 Local Open Scope Z_scope.
 
 (* "the receiver's observable behaviour is a function of the byte sequence alone - identical for every
@@ -97,4 +97,32 @@ Example C07_resync_example :
 Proof.
   split; [repeat split|]. split; [apply ctx0_wf|].
   eexists. eexists. split; [vm_compute; reflexivity|]. split; [cbn; auto 10|repeat split].
+Qed.
+
+(* Object numbering: every OPEN token consumes one number -- built, rejected by a taster, or dropped while an enclosing object
+   is being discarded.  `reference` sequences quote the SENDER's numbers (it numbers every OPEN it emits: sendOpen shape fact in
+   gen/BananaGen.v), so a violation must not shift the numbering of what follows: "decoding of the following objects is
+   unaffected" includes their back-references. *)
+Theorem C07_counter_counts_every_open : forall ts c c' es,
+  apply_all c ts = Ok' c' es -> objctr c' = objctr c + count_opens ts.
+Proof. exact apply_all_objctr. Qed.
+
+Theorem C07_open_number_is_its_ordinal : forall pre hdr c c1 es1 c2 es2,
+  apply_all c pre = Ok' c1 es1 -> tok_apply c1 tok_OPEN hdr [] = Ok' c2 es2 ->
+  inbObj c2 = objctr c + count_opens pre.
+Proof. exact open_number_counts_every_open. Qed.
+
+Print Assumptions C07_counter_counts_every_open.
+Print Assumptions C07_open_number_is_its_ordinal.
+
+(* non-vacuity: the OPEN that follows a discarded object containing two nested OPENs is object number 3 *)
+Example C07_numbering_example :
+  exists c1 es1 c2 es2,
+    apply_all (ctx0 0 []) [(tok_OPEN, 0, []); (tok_STRING, 1, [90]); (tok_OPEN, 1, []); (tok_STRING, 1, [76]); (tok_OPEN, 2, []);
+                            (tok_STRING, 1, [76]); (tok_CLOSE, 2, []); (tok_CLOSE, 1, []); (tok_CLOSE, 0, [])] = Ok' c1 es1 /\
+    In EViolation es1 /\
+    tok_apply c1 tok_OPEN 3 [] = Ok' c2 es2 /\ inbObj c2 = 3.
+Proof.
+  eexists. eexists. eexists. eexists.
+  split; [vm_compute; reflexivity|]. split; [cbn; auto 10|]. split; [vm_compute; reflexivity|reflexivity].
 Qed.
